@@ -1,0 +1,213 @@
+//go:build verif
+
+package collection
+
+import (
+	"encoding/json"
+	"errors"
+	"runtime"
+	"strings"
+	"sync"
+	"sync/atomic"
+	"time"
+)
+
+// kind "flight": overlapping Take calls on one or two Cache instances with gated fetch functions.
+// Keys are indices into an alphabet that contains odd strings (empty, very long, NUL, unicode).
+
+var verifOddKeys = []string{"k0", "k1", "", strings.Repeat("long-key-", 300), "a\x00b", "ключ-鍵-🔑"}
+
+func verifOddKey(i int) string {
+	if i >= 0 && i < len(verifOddKeys) {
+		return verifOddKeys[i]
+	}
+	return "k" + string(rune('a'+i%26))
+}
+
+type verifFlightStep struct {
+	Op    string `json:"op"` // take | release | get
+	ID    int    `json:"id"`
+	Cache int    `json:"cache"`
+	Key   int    `json:"key"`
+	Val   int    `json:"val"`
+	Fail  bool   `json:"fail"`
+	Gate  bool   `json:"gate"` // take: the fetch function waits until `release id`
+}
+
+type verifFlightCase struct {
+	Caches int               `json:"caches"`
+	Steps  []verifFlightStep `json:"steps"`
+}
+
+type verifFlightTakeObs struct {
+	ID      int  `json:"id"`
+	Fetched bool `json:"fetched"` // this call's own fetch function ran
+	Found   bool `json:"found"`
+	Val     int  `json:"val"`
+	Err     bool `json:"err"`
+	Done    bool `json:"done"`
+}
+
+type verifFlightRun struct {
+	mu    sync.Mutex
+	takes map[int]*verifFlightTakeObs
+	gates map[int]chan struct{}
+	live  int32
+}
+
+// verifFlightTake is the body of one Take goroutine (its name is looked for in the stack dump).
+func verifFlightTake(r *verifFlightRun, c *Cache, st verifFlightStep, o *verifFlightTakeObs, gate chan struct{}) {
+	defer atomic.AddInt32(&r.live, -1)
+	v, err := c.Take(verifOddKey(st.Key), func() (any, error) {
+		r.mu.Lock()
+		o.Fetched = true
+		r.mu.Unlock()
+		if gate != nil {
+			<-gate
+		}
+		if st.Fail {
+			return nil, errors.New("fetch failed")
+		}
+		return st.Val, nil
+	})
+	r.mu.Lock()
+	o.Done = true
+	o.Err = err != nil
+	if err == nil {
+		o.Found = true
+		o.Val, _ = v.(int)
+	}
+	r.mu.Unlock()
+}
+
+// verifTakesQuiet reports whether every Take goroutine is finished or blocked (on its gate, or
+// parked behind another call's flight): none is running or runnable.
+func verifTakesQuiet() bool {
+	buf := make([]byte, 1<<20)
+	n := runtime.Stack(buf, true)
+	for _, g := range strings.Split(string(buf[:n]), "\n\n") {
+		if !strings.Contains(g, "collection.verifFlightTake(") {
+			continue
+		}
+		i, j := strings.IndexByte(g, '['), strings.IndexByte(g, ']')
+		if i < 0 || j < i {
+			return false
+		}
+		state := g[i+1 : j]
+		if strings.HasPrefix(state, "running") || strings.HasPrefix(state, "runnable") || strings.HasPrefix(state, "syscall") {
+			return false
+		}
+	}
+	return true
+}
+
+func verifFlight(raw json.RawMessage) any {
+	var c verifFlightCase
+	if err := json.Unmarshal(raw, &c); err != nil {
+		return map[string]any{"error": err.Error()}
+	}
+	if c.Caches < 1 {
+		c.Caches = 1
+	}
+	gd := verifNewGuard()
+	n0 := runtime.NumGoroutine()
+	caches := make([]*Cache, c.Caches)
+	for i := range caches {
+		ca, err := NewCache(time.Hour)
+		if err != nil {
+			return map[string]any{"error": err.Error()}
+		}
+		caches[i] = ca
+	}
+	r := &verifFlightRun{takes: map[int]*verifFlightTakeObs{}, gates: map[int]chan struct{}{}}
+	quiesce := func(what string) {
+		quiet := 0
+		gd.wait(what, func() bool {
+			if verifTakesQuiet() {
+				quiet++
+			} else {
+				quiet = 0
+			}
+			if quiet >= 3 {
+				return true
+			}
+			time.Sleep(100 * time.Microsecond)
+			return false
+		})
+	}
+	gets := []map[string]any{}
+	order := []int{}
+	for _, st := range c.Steps {
+		if !gd.ok() {
+			break
+		}
+		switch st.Op {
+		case "take":
+			if st.Cache < 0 || st.Cache >= len(caches) {
+				continue
+			}
+			o := &verifFlightTakeObs{ID: st.ID}
+			var gate chan struct{}
+			if st.Gate {
+				gate = make(chan struct{})
+			}
+			r.mu.Lock()
+			r.takes[st.ID] = o
+			r.gates[st.ID] = gate
+			r.mu.Unlock()
+			order = append(order, st.ID)
+			atomic.AddInt32(&r.live, 1)
+			go verifFlightTake(r, caches[st.Cache], st, o, gate)
+			quiesce("a Take neither returned nor came to rest")
+		case "release":
+			r.mu.Lock()
+			gate := r.gates[st.ID]
+			r.gates[st.ID] = nil
+			r.mu.Unlock()
+			if gate != nil {
+				close(gate)
+			}
+			quiesce("Takes did not come to rest after a release")
+		case "get":
+			if st.Cache < 0 || st.Cache >= len(caches) {
+				continue
+			}
+			var v any
+			var ok bool
+			gd.run("Get blocked", func() { v, ok = caches[st.Cache].Get(verifOddKey(st.Key)) })
+			vi, _ := v.(int)
+			gets = append(gets, map[string]any{"found": ok, "val": vi})
+		}
+	}
+	hung := gd.hung
+	// open every gate and let the calls finish
+	r.mu.Lock()
+	for id, g := range r.gates {
+		if g != nil {
+			close(g)
+			r.gates[id] = nil
+		}
+	}
+	r.mu.Unlock()
+	fin := &verifGuard{limit: 2 * time.Second}
+	fin.wait("Takes still running at the end of the case", func() bool { return atomic.LoadInt32(&r.live) == 0 })
+	if hung == "" {
+		hung = fin.hung
+	}
+	if hung != "" {
+		verifHungCases++
+	}
+	takes := []verifFlightTakeObs{}
+	r.mu.Lock()
+	for _, id := range order {
+		takes = append(takes, *r.takes[id])
+	}
+	r.mu.Unlock()
+	for _, ca := range caches {
+		ca.timingWheel.Stop()
+	}
+	// the wheels' loops must be gone before the next case takes its goroutine baseline (the statistics loops stay)
+	end := &verifGuard{limit: 2 * time.Second}
+	end.wait("", func() bool { return runtime.NumGoroutine() <= n0+len(caches) })
+	return map[string]any{"takes": takes, "gets": gets, "hung": hung}
+}
